@@ -26,6 +26,7 @@ type PathResult struct {
 	G         string
 	PanicKind string
 	Stack     string
+	Fn        string
 }
 
 type Violation struct {
@@ -302,15 +303,27 @@ func (g *G) concretize(v IntV, label string) uint64 {
 
 func (g *G) toIntNonNeg(v IntV, panicMsg string, pos token.Pos) int {
 	if v.S != nil {
-		nonneg := g.vm.tb.Cmp(OpSLe, g.vm.tb.Const(0, v.S.w), v.S)
+		tb := g.vm.tb
+		nonneg := tb.Cmp(OpSLe, tb.Const(0, v.S.w), v.S)
 		if !g.branch(nonneg, "nonneg") {
 			g.tpanic("makechan", panicMsg, pos)
+		}
+		// the runtime refuses sizes whose byte size exceeds the address space
+		notHuge := tb.Cmp(OpSLe, v.S, tb.Const(1<<45, v.S.w))
+		if !g.branch(notHuge, "not-huge") {
+			g.tpanic("makechan-huge", panicMsg, pos)
 		}
 		return int(g.concretize(v, "size"))
 	}
 	n := int64(v.C)
 	if n < 0 {
 		g.tpanic("makechan", panicMsg, pos)
+	}
+	if n > 1<<45 {
+		g.tpanic("makechan-huge", panicMsg, pos)
+	}
+	if n > 1<<20 {
+		panic(pathAbort{kind: "BUDGET", msg: fmt.Sprintf("channel of %d elements", n)})
 	}
 	return int(n)
 }
@@ -428,8 +441,9 @@ func (ex *Explorer) Run(runPath func() *PathResult) *Report {
 		case "INFEASIBLE":
 			ex.Infeasible++
 		case "PANIC":
-			ex.recordViolation(ex.vm, nil, "panic:"+res.PanicKind+"@"+res.Pos, res.Msg+" in "+res.G, res.Pos, nil)
-			if v := ex.Violations["panic:"+res.PanicKind+"@"+res.Pos]; v != nil && v.Stack == "" {
+			plabel := "panic:" + res.PanicKind + "@" + res.Fn
+			ex.recordViolation(ex.vm, nil, plabel, res.Msg+" at "+res.Pos+" in goroutine "+res.G, res.Pos, nil)
+			if v := ex.Violations[plabel]; v != nil && v.Stack == "" {
 				v.Stack = res.Stack
 			}
 		case "DEADLOCK":
